@@ -214,6 +214,8 @@ def tasks(tier, seed):
     from ..pyvc.driver import verify
     from ..contracts import facade
     ts += [(verify, (c, m, q, v)) for c, m, q, v in facade.ALL if any(x in c.name for x in ("shift", "scale", "normalize", "__imul__"))]
+    from ..contracts import facade2
+    ts += [(verify, (c, m, q, v)) for c, m, q, v in facade2.ALL if any(x in c.name for x in ("__add__[number]", "__sub__[number]", "__mul__", "__rmul__", "__truediv__"))]
     from ..contracts import gens
     ts += [(verify, (c, m, q, v)) for c, m, q, v in gens.ALL]
     shapes = spec.knot_shapes(2, 1) + [(3, (2,)), (1, (1, 2))] if tier == "quick" else spec.knot_shapes(3, 2)
@@ -235,7 +237,7 @@ def replay(o):
 
 
 INFO = dict(
-    assumptions=A.S_COMMON + [A.A10], trusted_base=A.TRUSTED, min_obligations=30, level="other",
+    assumptions=A.S_COMMON + [A.A10, A.A12], trusted_base=A.TRUSTED, min_obligations=30, level="other",
     explanation="C18: engine V proves the generator closed forms for all degrees / npts / positive weight vectors and every randint draw, and shift / scale / "
                 "normalize for all vectors (the constructor is used by contract there, A10). In addition: generator closed forms enumerated for every (degree, npts, number class) up to a bound and for adversarial randint draws (bounded); shift / "
                 "scale / normalize with symbolic knots, shift and scale: every knot mapped affinely, degree / npts / multiplicities kept, normalize onto exactly "
